@@ -38,6 +38,15 @@ def run(res, tier, seed, model_ok, search):
         dyadic = case % 2 == 0
         nsel = rng.randint(1, 4)
         specs = [C16.gen_order(rng, i + 1, nsel, dyadic) for i in range(rng.choice([0, 1, 2, 2, 3, 4, 6]))]
+        stack = case % 7 == 3
+        if stack:
+            # a stack of starting-price orders of one side on one selection (several acknowledged MARKET_ON_CLOSE / LIMIT_ON_CLOSE bets
+            # and one more): their liabilities add up, the decision depends on the SUM
+            stack_side = rng.choice(["BACK", "LAY"])
+            specs = [C16.gen_order(rng, i + 1, nsel, dyadic) for i in range(rng.choice([2, 3, 4]))]
+            for sp in specs:
+                sp.update(kind=rng.choice(["LOC", "MOC"]), side=stack_side, sel=0, line=False, status="EXECUTABLE", matched=0.0, cancelled=0.0,
+                          liability=rng.choice([2.0, 4.0, 6.0, 8.0]))
         blotter, strategy, byid = C16.build(mods, specs, True)
         for sp in specs:
             blotter[byid[sp["id"]].id] = byid[sp["id"]]
@@ -45,6 +54,10 @@ def run(res, tier, seed, model_ok, search):
         strategy.max_selection_exposure = rng.choice([None, 0, 5, 20, 100, 1000])
         strategy.max_market_exposure = rng.choice([None, None, 0, 30, 100, 1000])
         kind = rng.choices(["PLACE", "REPLACE", "CANCEL", "UPDATE"], [6, 3, 0.5, 0.5])[0]
+        if stack:
+            kind = "PLACE"
+            strategy.max_order_exposure = rng.choice([None, 10, 50])
+            strategy.max_selection_exposure = rng.choice([5, 10, 15, 20])
         candidates = [sp for sp in specs if sp["kind"] == "L"] if kind == "REPLACE" else []
         ladder = "C"
         if kind == "REPLACE" and candidates:
@@ -55,6 +68,8 @@ def run(res, tier, seed, model_ok, search):
             if kind == "REPLACE":
                 kind = "PLACE"
             osp = C16.gen_order(rng, 99, nsel, dyadic)
+            if stack:
+                osp.update(kind=rng.choice(["LOC", "MOC"]), side=stack_side, sel=0, line=False, liability=rng.choice([2.0, 4.0, 6.0]))
             osp["status"] = None
             osp["matched"], osp["cancelled"] = 0.0, 0.0
             _, _, nb = C16.build(mods, [osp], True)
